@@ -16,6 +16,7 @@ const (
 	cbAfterRead
 	cbKeyCompare
 	cbRefs
+	cbKeyCompareNil
 )
 
 func vNeutralCallbacks(mask int) StoreCallbacks {
@@ -60,6 +61,10 @@ func vNeutralCallbacks(mask int) StoreCallbacks {
 			return func(a, b []byte) int { return bytes.Compare(a, b) }
 		}
 	}
+	if mask&cbKeyCompareNil != 0 {
+		// the documented way of saying "use the default comparator"
+		cb.KeyCompareForCollection = func(name string) KeyCompare { return nil }
+	}
 	if mask&cbRefs != 0 {
 		cb.ItemAddRef = func(c *Collection, i *Item) {}
 		cb.ItemDecRef = func(c *Collection, i *Item) {}
@@ -87,10 +92,10 @@ func vSameItem(label string, a, b *Item, wv bool) {
 }
 
 func vH_C17_rel() {
-	masks := []int{0xff, cbAlloc, cbValLength, cbValWrite, cbValRead, cbBeforeWrite, cbAfterRead, cbKeyCompare, cbRefs}
+	masks := []int{0xff, cbAlloc, cbValLength, cbValWrite, cbValRead, cbBeforeWrite, cbAfterRead, cbKeyCompare, cbRefs, cbKeyCompareNil}
 	var mask int
 	if vParam("allsubsets") == 1 {
-		mask = vChoose("callback-subset", 1, 255)
+		mask = vChoose("callback-subset", 1, 511)
 	} else {
 		mask = masks[vChoose("callback-config", 0, len(masks)-1)]
 	}
@@ -295,8 +300,10 @@ func vH_C18_reentrant() {
 	vAssume(prio >= 0)
 	before := m.clone()
 	calls := 0
+	var outer []vSeen
 	visit := func(i *Item) bool {
 		calls++
+		outer = append(outer, vSeen{i.Key, i.Val, i.Priority, 0})
 		if calls > 1 {
 			return true
 		}
@@ -350,13 +357,24 @@ func vH_C18_reentrant() {
 		return true
 	}
 	var err error
-	if vChoose("descend", 0, 1) == 1 {
+	desc := vChoose("descend", 0, 1) == 1
+	if desc {
 		err = c.VisitItemsDescend([]byte{0xff, 0xff, 0xff}, true, visit)
 	} else {
 		err = c.VisitItemsAscend(nil, true, visit)
 	}
 	vAssert("outer-visit-noerr", err == nil)
 	vAssert("outer-visit-saw-pinned-version", calls == len(before.ents))
+	if len(outer) == len(before.ents) {
+		for k := range outer {
+			j := k
+			if desc {
+				j = len(outer) - 1 - k
+			}
+			vAssert("outer-visit-item", vAnd(vBytesEq(outer[k].key, before.ents[j].key),
+				vAnd(outer[k].val != nil, vBytesEq(outer[k].val, before.ents[j].val))))
+		}
+	}
 	vCheckColl("after-reentrant", c, m)
 	vCover("done")
 }
